@@ -61,9 +61,10 @@ def describe(v: Variant) -> str:
 
 
 class StrSym:
-    def __init__(self, ctx: Ctx, max_depth: int = 4):
+    def __init__(self, ctx: Ctx, max_depth: int = 4, opaque=()):
         self.ctx = ctx
         self.max_depth = max_depth
+        self.opaque = set(opaque)  # repository functions treated as wrappers (sanitisers), not inlined
 
     # -- public ------------------------------------------------------------------------------------------------
     def variants(self, fi: Optional[FuncInfo], mod: Module, expr: ast.AST, env: Optional[Dict[str, List[Variant]]] = None,
@@ -277,6 +278,9 @@ class StrSym:
             if fn == "str":
                 w = "str"
             return self._wrap(inner, w)
+        short = fn.split(".")[-1]
+        if short in self.opaque and e.args:
+            return self._wrap(self._ev(fi, mod, e.args[0], env, depth), short)
         # repository function: inline its returns
         if depth < self.max_depth:
             tgs = [t for t in ctx.cg.resolve_call(fi, mod, e) if isinstance(t, FuncInfo)]
